@@ -13,6 +13,9 @@ an op that is not applicable in the current state is skipped, which keeps shrink
   ["send", ep, ch, "s"|"b", size, salt]   message content is derived from (ep,ch,counter)
   ["close", ep, ch]
   ["threshold", ep, ch, value]
+  ["react", ep, kind, ch, "s"|"b", size, salt]   arm a one-shot application handler that calls send() from INSIDE the next
+                                      event of that kind (0 open, 1 close, 2 bufferedamountlow, 3 message of channel ch;
+                                      4: the datachannel event, the send goes to the announced channel)
   ["clock", ticks]                    advance the scripted clock (ticks of 1/1024 s)
   ["stop", ep]
   ["heal"]                            fault-free continuation until quiescent (C02)
@@ -55,6 +58,8 @@ class World:
         other = "B" if name == "A" else "A"
         for d in ep.outbox:
             self.net[other].append(d)
+        for i, msg in ep.reacted:
+            self.sent[name].setdefault(i, []).append(msg)
         self.trace[name].append({
             "now": sim.Clock.ticks,
             "in": inp,
@@ -178,6 +183,14 @@ class World:
             exc = ep.set_threshold(i, op[3])
             self._after(name, ["threshold", i, op[3]], exc)
             return True
+        if k == "react":
+            # ["react", ep, kind, ch, "s"|"b", size, salt]
+            kind, i = op[2], op[3]
+            if kind != 4 and i >= len(ep.channels):
+                return False
+            exc = ep.react(kind, 0 if kind == 4 else i, message(op[4], op[5], op[6]))
+            self._after(name, ["react", kind, 0 if kind == 4 else i, op[4], op[5], op[6]], exc)
+            return True
         raise ValueError("unknown op " + json.dumps(op))
 
     def run(self, ops=None):
@@ -230,6 +243,20 @@ class World:
         return out
 
 
+def arm_reaction(rng, w, name, do):
+    """The application registers a handler that calls send() from inside an event (echo on message, greeting on open /
+    datachannel, refill on bufferedamountlow, a send attempt on close)."""
+    ep = w.ep[name]
+    kind = rng.choice([0, 1, 2, 2, 3, 3, 3, 4])
+    if kind != 4 and not ep.channels:
+        kind = 4
+    i = 0 if kind == 4 else rng.randrange(len(ep.channels))
+    if kind == 2 and rng.random() < 0.7:
+        do(["threshold", name, i, rng.choice([0, 1, 10, 100, 1200])])
+    w.salt += 1
+    return do(["react", name, kind, i, rng.choice("sb"), rng.choice([0, 1, 10, 100, 1200, 3000]), w.salt])
+
+
 def random_ops(rng, case, n_steps, profile, world=None):
     """Drive a world with a random policy and return the list of ops that were applied.
     With `world` (whose `oplog` is a list) the policy continues an existing run."""
@@ -252,6 +279,9 @@ def random_ops(rng, case, n_steps, profile, world=None):
         r = rng.random()
         name = rng.choice("AB")
         ep = w.ep[name]
+        if profile.get("react") and rng.random() < profile["react"]:
+            arm_reaction(rng, w, name, do)
+            continue
         if hostile and rng.random() < hostile:
             from . import sctp_hostile
             d, forging = sctp_hostile.make(rng, w, name)
